@@ -297,6 +297,8 @@ def parse_diagnostics(stderr):
             cur["_last_src_line"] = int(m2.group(1))
         if "failed this postcondition" in line and cur.get("_last_src_line"):
             cur["post_line"] = cur["_last_src_line"]
+        if "failed this invariant" in line and cur.get("_last_src_line"):
+            cur["inv_line"] = cur["_last_src_line"]
     return blocks
 
 
@@ -367,8 +369,12 @@ def classify(unit, meta, run):
             continue
         # an injected assertion that carries a named obligation
         hit = [meta.get("assert_lines", {}).get(l) for l in lines_in_file if l in meta.get("assert_lines", {})]
-        if hit and "assertion failed" in b["msg"]:
+        if hit and ("assertion failed" in b["msg"] or "invariant not satisfied" in b["msg"]):
             failed.setdefault(hit[0], []).append(b)
+            continue
+        # an injected loop invariant that carries a named obligation (marker on the invariant's own line)
+        if "invariant not satisfied" in b["msg"] and b.get("inv_line") in meta.get("assert_lines", {}):
+            failed.setdefault(meta["assert_lines"][b["inv_line"]], []).append(b)
             continue
         # located in the body (or a callee precondition): safety obligation
         lo, hi = meta["body_range"]
